@@ -10,6 +10,15 @@ from ..values import cspec, materialize, definition_of
 from ..suites_chain import CONSTRUCTION_ERRORS
 
 
+def deep_strip(v):
+    """values without the ChainObject marker of the generated run (it is compared by the oracle, not by the model)"""
+    if isinstance(v, list):
+        return [deep_strip(x) for x in v]
+    if isinstance(v, dict):
+        return {k: deep_strip(x) for k, x in v.items() if not (k == 'h' and 't' in v and 'i' in v)}
+    return v
+
+
 def gen_flat_case(rng):
     """A pipeline in one in-memory config without namespaces, plus what to hand to the test helpers."""
     from ..gen_pipeline import gen_classes
@@ -24,6 +33,9 @@ def gen_flat_case(rng):
         for p in c['params']:
             if p['cfg'] not in vals and not (p['default'] is not None and rng.random() < 0.3) and rng.random() > 0.04:
                 vals[p['cfg']] = None if rng.random() < 0.12 else value_for_dtype(rng, p['dtype'], rich=False, objects=False)
+    anys = sorted({p['cfg'] for c in classes for p in c['params'] if p['dtype'] == 'any' and p['cfg'] in vals})
+    if anys and rng.random() < 0.3:
+        vals[rng.choice(anys)] = {'__auto__': 'Hooked', 'args': {'a': rng.choice([1, 'x', [2]])}}
     concrete = [c['id'] for c in classes if not c.get('abstract')]
     real = sorted(rng.sample(concrete, rng.randrange(1, len(concrete) + 1))) if concrete else []
     return dict(classes=classes, vals=vals, real=real, by_class=rng.random() < 0.5, drop_mock=rng.random() < 0.08,
@@ -64,11 +76,12 @@ Definition helper_model (c : list tclass * list nat * list (str * value) * cfgda
                 cls_of = {c['id']: getattr(m, c['cname']) for c in case['classes']}
                 slug = {c['id']: pl.slug_of(c) for c in case['classes']}
                 # the real chain, for the values handed to the mocks and for the comparison
-                real_values, real_error = {}, None
+                real_values, real_error, out_real_raw = {}, None, {}
                 try:
                     chain = pl.build_config(full, mod).chain()
                     for n, t in chain.tasks.items():
-                        real_values[n] = t.value
+                        out_real_raw[n] = t.value
+                        real_values[n] = deep_strip(out_real_raw[n])
                 except CONSTRUCTION_ERRORS as e:
                     real_error = type(e).__name__
                 mocks = []
@@ -79,30 +92,48 @@ Definition helper_model (c : list tclass * list nat * list (str * value) * cfgda
                 if case['drop_mock'] and mocks:
                     mocks = mocks[1:]
                 pl.RUNLOG.clear()
-                params = {k: materialize(v) for k, v in case['vals'].items()}
-                mock_arg = {(cls_of[cid] if case['by_class'] else name): v for cid, name, v in mocks}
                 out = {}
-                try:
-                    if case['single'] and len(case['real']) == 1:
-                        t = create_test_task(cls_of[case['real'][0]], input_tasks=mock_arg, parameters=params,
-                                             base_dir=Path(tmp))
-                        tasks = {t.fullname: t}
-                    else:
-                        tc = TestChain([cls_of[i] for i in case['real']], mock_tasks=mock_arg, parameters=params,
-                                       base_dir=Path(tmp))
-                        tasks = {n: t for n, t in tc.tasks.items() if type(t).__name__ != 'MockTask'}
-                    values = []
-                    for n, t in tasks.items():
-                        try:
-                            values.append([n, ['ok', t.value]])
-                        except Exception as e:
-                            values.append([n, ['error', type(e).__name__]])
-                    out['values'] = values
-                except CONSTRUCTION_ERRORS as e:
-                    out['error'] = type(e).__name__
-                    out['text'] = str(e)[:150]
+
+                def helper(mock_list, base_dir):
+                    params = {k: materialize(v) for k, v in case['vals'].items()}
+                    mock_arg = {(cls_of[cid] if case['by_class'] else name): v for cid, name, v in mock_list}
+                    try:
+                        if case['single'] and len(case['real']) == 1:
+                            t = create_test_task(cls_of[case['real'][0]], input_tasks=mock_arg, parameters=params,
+                                                 base_dir=base_dir)
+                            tasks = {t.fullname: t}
+                        else:
+                            tc = TestChain([cls_of[i] for i in case['real']], mock_tasks=mock_arg, parameters=params,
+                                           base_dir=base_dir)
+                            tasks = {n: t for n, t in tc.tasks.items() if type(t).__name__ != 'MockTask'}
+                        values = []
+                        for n, t in tasks.items():
+                            if base_dir is None:
+                                made.append(t.get_config().base_dir)
+                            try:
+                                values.append([n, ['ok', t.value]])
+                            except Exception as e:
+                                values.append([n, ['error', type(e).__name__]])
+                        return dict(values=values)
+                    except CONSTRUCTION_ERRORS as e:
+                        return dict(error=type(e).__name__, text=str(e)[:150])
+                made = []
+                out.update(helper(mocks, Path(tmp)))
+                # the helper used again without a base_dir, with the same and then with other upstream values
+                alt = [[cid, name, {'alt': v}] for cid, name, v in mocks]
+                out['again'] = helper(mocks, None)
+                out['again_alt'] = helper(alt, None)
+                out['alt_mocks'] = [[name, v] for _, name, v in alt]
+                for b in made:      # the directories the helpers made for themselves
+                    if b is not None and str(b).startswith(tempfile.gettempdir()) and Path(b) != Path(tmp):
+                        shutil.rmtree(b, ignore_errors=True)
+                out['raw_values'] = out.get('values')
+                for part in (out, out['again'], out['again_alt']):
+                    if 'values' in part:
+                        part['values'] = [[n, [r[0], deep_strip(r[1])]] for n, r in part['values']]
                 out['mocks'] = [[name, v] for _, name, v in mocks]
                 out['real_values'] = real_values
+                out['real_raw'] = out_real_raw
                 out['real_error'] = real_error
                 out['ran'] = [s for _, s, _ in pl.RUNLOG]
                 out['files'] = sorted(str(p.relative_to(tmp)) for p in Path(tmp).rglob('*') if p.is_file())
@@ -116,7 +147,7 @@ Definition helper_model (c : list tclass * list nat * list (str * value) * cfgda
         classes = clist([pl.cclass(c, by_id) for c in order])
         i = cpair(classes, clist([cnat(by_id[k]) for k in case['real']]),
                   clist([cpair(cstr(n), cspec(v)) for n, v in obs.get('mocks', [])]),
-                  clist([cpair(cstr(k), cspec(definition_of(v))) for k, v in case['vals'].items()]))
+                  clist([cpair(cstr(k), cspec(v)) for k, v in case['vals'].items()]))
         if 'values' not in obs:
             return i, '(VStr (lit "error"))'
         vs = []
@@ -138,6 +169,26 @@ Definition helper_model (c : list tclass * list nat * list (str * value) * cfgda
                 return f'a mocked task was persisted: {f}'
         if obs.get('real_error') or 'values' not in obs or case['drop_mock']:
             return None
+        for n, r in obs.get('raw_values') or []:
+            real = obs.get('real_raw', {}).get(n)
+            if r[0] == 'ok' and isinstance(r[1], dict) and isinstance(real, dict) and r[1].get('h') != real.get('h'):
+                return (f'{n}: parameter objects that take part in the chain (ChainObject) were initialised {r[1].get("h")} in '
+                        f'the helper and {real.get("h")} in the real chain')
+        # every use of the helper sees the upstream values handed to THAT use
+        for tag, mocks in (('again', obs['mocks']), ('again_alt', obs.get('alt_mocks', []))):
+            part = obs.get(tag, {})
+            given = {n: v for n, v in mocks}
+            for n, r in part.get('values', []):
+                if r[0] != 'ok' or not isinstance(r[1], dict):
+                    continue
+                for iname, ival in r[1].get('i', []):
+                    cands = [mn for mn in given if mn == iname] or [mn for mn in given if mn.split(':')[-1] == iname]
+                    if len(cands) != 1:
+                        continue
+                    mv = given[cands[0]]
+                    if json.dumps(ival, sort_keys=True) != json.dumps(mv, sort_keys=True):
+                        return (f'{n} (helper used again without base_dir, {tag}): input {iname} is '
+                                f'{json.dumps(ival)[:120]}, the value handed to the helper is {json.dumps(mv)[:120]}')
         for n, r in obs['values']:
             if r[0] != 'ok' or n not in obs['real_values']:
                 continue
